@@ -233,6 +233,7 @@ def straddles(X, pts, thr=1.0):
     """True when some four of the points are 'planar' seen from one apex and 'not planar' seen from another (the
     distance of one point from the plane of the other three is below thr, that of another point above). The library's
     are_planar() evaluates a single apex per quadruple - the last one in input order."""
+    pts = list(dict.fromkeys(p for p in pts if p is not None))  # a ring atom can be a substituent of both ends of a bond
     for quad in itertools.combinations(pts, 4):
         d = apex_distances(X, quad)
         if min(d) < thr < max(d):
